@@ -1,5 +1,6 @@
 /-
-  C05 — property theorems (and non-vacuity examples) ONLY.  Helper lemmas: `Lemmas.lean`, `Quoted.lean`.
+  C05 — property theorems (and non-vacuity examples) ONLY.  Helper lemmas: `Lemmas.lean`, `Quoted.lean`,
+  `SpecExec.lean`, `Utf8.lean`.
 
   Property text: "For every directory tree and every field, pathname expansion returns exactly the
   existing pathnames that match the field component by component (slashes only match literally, a
@@ -13,7 +14,7 @@
   system `fs`; those that speak about "existing pathnames" assume the consistency `WF fs` of the two
   system oracles (`Spec.lean`).
 -/
-import YashModel.Glob.Quoted
+import YashModel.Glob.Utf8
 namespace YashModel.Glob
 
 variable (m : Matcher) (fs : Fs) (field : List AttrChar)
@@ -179,6 +180,76 @@ theorem quoted_is_literal (hm : LiteralFaithful m) (hq : FullyQuoted field)
     · simp [he, sortPaths]
     · simp [he]
 
+/-! ### the executable Spec of the driver, and the order -/
+
+/-- the brute-force search of `specGlobU` finds a pathname iff the Spec admits it -/
+theorem specGlobU_found_iff (hwf : WF fs) (univ : List Name) (hU : UnivCovers fs univ) (p : Path) :
+    p ∈ ((tuples m univ ((splitComponents field).1 :: (splitComponents field).2)).filter
+          (witness m fs [] (splitComponents field).1 (splitComponents field).2)).map joinPath
+      ↔ SpecMember m fs field p :=
+  mem_found m fs hwf univ hU field p
+
+/-- ★ The driver's Spec column is a proved object: the executable brute-force `specGlobU` (all tuples
+    of candidate names, filtered by `witness`, sorted and de-duplicated by insertion over Lean's own
+    order on `List Char`) meets the declarative `SpecResult` — sound, complete, strictly sorted,
+    exact fallback — whenever the oracles are consistent and the finite name set `univ` contains every
+    listed name (true of the driver's `univ` by construction: it is the union of the dumped listings). -/
+theorem specGlobU_meets_spec (hwf : WF fs) (univ : List Name) (hU : UnivCovers fs univ) (noglob : Bool) :
+    SpecResult m fs noglob field (specGlobU m fs univ noglob field) := by
+  have hmem := mem_found m fs hwf univ hU field
+  unfold specGlobU
+  simp only []
+  constructor
+  · intro h
+    rcases h with h | h
+    · simp [h]
+    · have : (((tuples m univ ((splitComponents field).1 :: (splitComponents field).2)).filter
+          (witness m fs [] (splitComponents field).1 (splitComponents field).2)).map joinPath) = [] := by
+        apply List.eq_nil_iff_forall_not_mem.mpr
+        intro p hp
+        exact h p ((hmem p).mp hp)
+      simp [this]
+  · intro hng hne
+    obtain ⟨q, hq⟩ := hne
+    have hq' := (hmem q).mpr hq
+    have hne' : (((tuples m univ ((splitComponents field).1 :: (splitComponents field).2)).filter
+          (witness m fs [] (splitComponents field).1 (splitComponents field).2)).map joinPath).isEmpty = false := by
+      cases hf : ((tuples m univ ((splitComponents field).1 :: (splitComponents field).2)).filter
+          (witness m fs [] (splitComponents field).1 (splitComponents field).2)).map joinPath with
+      | nil => rw [hf] at hq'; simp at hq'
+      | cons a t => rfl
+    rw [hng, hne']
+    simp only [Bool.or_self, Bool.false_eq_true, if_false]
+    exact ⟨sortDedup_strict _, fun p => (mem_sortDedup _ p).trans (hmem p)⟩
+
+/-- hence the two columns the driver prints are equal as a theorem, not only on the cases run -/
+theorem specGlobU_eq_glob (hwf : WF fs) (univ : List Name) (hU : UnivCovers fs univ) (noglob : Bool) :
+    specGlobU m fs univ noglob field = glob m fs noglob field :=
+  specResult_unique m fs field noglob _ _ (specGlobU_meets_spec m fs field hwf univ hU noglob)
+    (glob_meets_spec m fs field hwf noglob)
+
+/-- ★ the model's comparison `pathLe` (transcribing `a.value.cmp(&b.value)`) is Lean's lexicographic
+    `≤` on lists of characters compared by code point … -/
+theorem pathLe_is_lex (a b : Path) : pathLe a b = true ↔ a ≤ b := pathLe_iff_le a b
+
+/-- … so the result is strictly increasing in that order -/
+theorem glob_sorted_lex (hwf : WF fs) (noglob : Bool) :
+    (glob m fs noglob field).Pairwise (fun a b => a < b) := by
+  have := glob_sorted_nodup m fs field hwf noglob
+  unfold StrictSorted at this
+  exact this.imp (fun {a b} h => (pathLt_iff a b).mpr h)
+
+/-- ★ … and it is the order the code uses: Rust's `String::cmp` compares the UTF-8 encodings byte by
+    byte, and `pathLe a b` holds iff the UTF-8 bytes of `a` (Lean's encoder `String.utf8EncodeChar`;
+    `utf8Bytes l` is `List.utf8Encode l` as a list) are lexicographically `≤` those of `b`. -/
+theorem pathLe_is_utf8_bytewise (a b : Path) : pathLe a b = true ↔ utf8Bytes a ≤ utf8Bytes b := by
+  rw [pathLe_iff_le, ← List.not_lt, ← List.not_lt, utf8Bytes_lt_iff]
+
+/-- the result is strictly increasing bytewise on the UTF-8 encodings -/
+theorem glob_sorted_bytewise (hwf : WF fs) (noglob : Bool) :
+    (glob m fs noglob field).Pairwise (fun a b => utf8Bytes a < utf8Bytes b) :=
+  (glob_sorted_lex m fs field hwf noglob).imp (fun {a b} h => (utf8Bytes_lt_iff a b).mp h)
+
 /-! ### non-vacuity: a concrete system and matcher meeting every hypothesis, with a two-result expansion -/
 
 /-- three files `a`, `b`, `.h` in the working directory -/
@@ -271,6 +342,14 @@ example : FullyQuoted qstar ∧ SlashNotQuoting qstar := by
     simp [qstar] at ha
     subst ha
     rfl
+example : UnivCovers fs₀ [['a'], ['b'], ['.', 'h']] := by
+  intro d ns h n hn
+  simp only [fs₀] at h
+  split at h
+  · cases h; exact hn
+  · cases h
+-- a two-byte and a three-byte character: code-point order = byte order
+example : pathLe ['é'] ['€'] = true ∧ utf8Bytes ['é'] = [0xc3, 0xa9] ∧ utf8Bytes ['€'] = [0xe2, 0x82, 0xac] := by decide
 example : NoWild m₀ (splitComponents qstar).1 (splitComponents qstar).2 := by unfold NoWild; decide
 example : (splitComponents star).2 = []
     ∧ m₀.kind (toPattern (splitComponents star).1) = Kind.pattern := by decide
